@@ -143,7 +143,7 @@ def check_views(ctx, gf, shx, case):
 def run(ctx):
     common.check_obligations(ctx, THEOREMS)
     rng = ctx.rng
-    nfiles = 1500 if ctx.thorough() else 150
+    nfiles = 10000 if ctx.thorough() else 150
     terms, defs = [], []
     ev = 0
     for k in range(nfiles):
@@ -186,7 +186,7 @@ def run(ctx):
                 nbad += 1
     if nbad:
         ctx.broken.append('correspondence Model/Ctx.v atoms_of differs from Shelxfile.atoms on %d generated files' % nbad)
-    ev += include_files(ctx, 300 if ctx.thorough() else 40)
+    ev += include_files(ctx, 1500 if ctx.thorough() else 40)
     ev += witnesses(ctx)
     ctx.cov['evaluations'] = ev
     ctx.cov['distinct_nontrivial'] = ev
